@@ -175,14 +175,18 @@ type RespSubst struct {
 	ItemsDelta  int         `json:"items_delta,omitempty"`  // -1 drop last item, +1 duplicate last item, -9 no item at all
 	Items       []ItemSubst `json:"items,omitempty"`        // by item index (cycled); empty = all items correct
 	SwapIDs     bool        `json:"swap_ids,omitempty"`
+	// Decor: optional elements a server may add to an otherwise unchanged response (bitmask): 1 a non-critical
+	// MessageExtension on every item, 2 an AsynchronousCorrelationValue on every item, 4 no UniqueBatchItemID echoed,
+	// 8 correlation values in the header. A client may accept or reject such a response; all other rules apply.
+	Decor int `json:"decor,omitempty"`
 }
 
 func (r *RespSubst) violating() bool {
 	if r == nil {
 		return false
 	}
-	if r.HeaderDelta != 0 || r.ItemsDelta != 0 || r.SwapIDs {
-		return true
+	if r.HeaderDelta != 0 || r.ItemsDelta != 0 || r.SwapIDs || r.Decor != 0 {
+		return true // (decorated responses: "may be rejected", see Decor)
 	}
 	for _, it := range r.Items {
 		if it != (ItemSubst{}) {
@@ -278,6 +282,9 @@ func genRespSubst(g *simrt.Tape) *RespSubst {
 		r.Items = append(r.Items, genItemSubst(g))
 	}
 	r.SwapIDs = g.Draw(8) == 0
+	if g.Draw(4) == 0 {
+		r.Decor = 1 + g.Draw(15)
+	}
 	return r
 }
 
@@ -339,6 +346,10 @@ func c12Floor(tier string) []*C12Sc {
 		{Items: []ItemSubst{{Status: 4, Reason: 2, Message: true, Payload: "absent"}}},
 		{Items: []ItemSubst{{Status: 1, Reason: 3, Message: true}}}, // failed but with a payload
 		{HeaderDelta: 1}, {HeaderDelta: -1}, {ItemsDelta: 1}, {ItemsDelta: -9}, {ItemsDelta: 1, HeaderDelta: 1},
+		{Decor: 1}, {Decor: 2}, {Decor: 4}, {Decor: 8}, {Decor: 15},
+		{Decor: 3, Items: []ItemSubst{{Status: 1, Reason: 4, Message: true, Payload: "absent"}}},
+		{Decor: 2, Items: []ItemSubst{{Status: 2, Payload: "absent"}}},
+		{Decor: 1, Items: []ItemSubst{{Payload: "absent"}}},
 	}
 	var out []*C12Sc
 	for op := range opCases {
@@ -505,6 +516,17 @@ func buildResponseWith(req *kmip.RequestMessage, sb *RespSubst, sent *[]c12Sent,
 			ri.ResponsePayload = kmip.NewUnknownPayload(bi.Operation, ttlv.Value{Tag: 0x420094, Value: "opaque"}, ttlv.Value{Tag: 0x42005C, Value: ttlv.Enum(0x55)})
 		case "absent":
 		}
+		if sb != nil {
+			if sb.Decor&1 != 0 {
+				ri.MessageExtension = &kmip.MessageExtension{VendorIdentification: "verif", VendorExtension: ttlv.Struct{{Tag: 0x420069, Value: int32(1)}}}
+			}
+			if sb.Decor&2 != 0 {
+				ri.AsynchronousCorrelationValue = []byte("async-1")
+			}
+			if sb.Decor&4 != 0 {
+				ri.UniqueBatchItemID = nil
+			}
+		}
 		if sent != nil {
 			*sent = append(*sent, c12Sent{op: bi.Operation, item: it, status: ri.ResultStatus, reason: ri.ResultReason, message: ri.ResultMessage})
 		}
@@ -530,6 +552,9 @@ func buildResponseWith(req *kmip.RequestMessage, sb *RespSubst, sent *[]c12Sent,
 	resp.Header.BatchCount = int32(len(resp.BatchItem))
 	if sb != nil {
 		resp.Header.BatchCount += int32(sb.HeaderDelta)
+		if sb.Decor&8 != 0 {
+			resp.Header.ClientCorrelationValue, resp.Header.ServerCorrelationValue = "ccv", "scv"
+		}
 	}
 	return resp
 }
